@@ -2,6 +2,7 @@ package main
 
 import (
 	"fmt"
+	"go/constant"
 	"go/token"
 	"go/types"
 	"os"
@@ -52,10 +53,15 @@ func convClass(callee *ssa.Function, argIdx int) string {
 		return "ToUint16"
 	case "toIntSign":
 		return "ToNumber(sign)"
-	case "toNumberPrimitive":
+	}
+	switch primHintOf(callee, nil, 0) {
+	case "number":
 		return "ToPrimitive(Number)"
-	case "toPrimitiveValue", "toPrimitive":
+	case "none", "string", "?":
 		return "ToPrimitive"
+	}
+	if len(callee.Params) == 2 && typeIs(callee.Params[1].Type(), ottoPath, "defaultValueHint") {
+		return "ToPrimitive" // the root function; the hint is looked at where the call is known (toPrimitiveHint)
 	}
 	return ""
 }
@@ -196,6 +202,12 @@ func (t *convTrack) visit(v ssa.Value, role, depth int) {
 				default:
 					if role == roleArg {
 						if cl := convClass(callee, i); cl != "" {
+							if cl == "ToNumber" && feedsFloatToInteger(x.Value()) {
+								cl = "ToInteger" // ToNumber whose result only goes into the integer-rounding helper: ToInteger written in two steps
+							}
+							if h := toPrimitiveHint(cc); h == "number" {
+								cl = "ToPrimitive(Number)"
+							}
 							t.convs[cl] = true
 							continue
 						}
@@ -414,4 +426,122 @@ func ruleArgConversion(c *Ctx, r *R) {
 			r.bad(k, "-", fmt.Sprintf("%s prescribes %s for this argument; the implementation applies %s", clause, want, got))
 		}
 	}
+}
+
+// isFloatToInteger: fn is ToInteger on an already converted number: float64 -> float64, NaN tested, and the result
+// rounded towards zero (math.Trunc, or math.Floor and math.Ceil by sign).
+func isFloatToInteger(fn *ssa.Function) bool {
+	if fn == nil || fn.Blocks == nil || len(fn.Params) != 1 || fn.Signature.Results().Len() != 1 {
+		return false
+	}
+	isF := func(t types.Type) bool {
+		b, ok := t.Underlying().(*types.Basic)
+		return ok && b.Kind() == types.Float64
+	}
+	if !isF(fn.Params[0].Type()) || !isF(fn.Signature.Results().At(0).Type()) {
+		return false
+	}
+	seen := map[string]bool{}
+	for _, b := range fn.Blocks {
+		for _, ins := range b.Instrs {
+			if call, ok := ins.(*ssa.Call); ok {
+				if callee := call.Call.StaticCallee(); callee != nil && callee.Pkg != nil && callee.Pkg.Pkg.Path() == "math" && len(call.Call.Args) >= 1 && call.Call.Args[0] == ssa.Value(fn.Params[0]) {
+					seen[callee.Name()] = true
+				}
+			}
+		}
+	}
+	return seen["IsNaN"] && (seen["Trunc"] || (seen["Floor"] && seen["Ceil"]))
+}
+
+// feedsFloatToInteger: every use of v (a float64) is as the argument of an isFloatToInteger function.
+func feedsFloatToInteger(v ssa.Value) bool {
+	if v == nil || v.Referrers() == nil {
+		return false
+	}
+	n := 0
+	for _, ref := range *v.Referrers() {
+		switch x := ref.(type) {
+		case *ssa.DebugRef:
+		case *ssa.Call:
+			if !isFloatToInteger(x.Call.StaticCallee()) {
+				return false
+			}
+			n++
+		default:
+			return false
+		}
+	}
+	return n > 0
+}
+
+// toPrimitiveHint: cc applies ToPrimitive to its first argument, directly (the function that hands its hint parameter
+// to [[DefaultValue]]) or through a one-call wrapper; returns the hint "none" / "number" / "string", "?" when the hint is
+// not a constant, "" when cc is no such call.
+func toPrimitiveHint(cc *ssa.CallCommon) string {
+	return primHintOf(cc.StaticCallee(), cc.Args, 0)
+}
+
+func primHintOf(callee *ssa.Function, args []ssa.Value, depth int) string {
+	if callee == nil || callee.Blocks == nil || depth > 3 || callee.Pkg == nil || callee.Pkg.Pkg.Path() != ottoPath || callee.Signature.Recv() != nil {
+		return ""
+	}
+	if len(callee.Params) == 2 && typeIs(callee.Params[0].Type(), ottoPath, "Value") && typeIs(callee.Params[1].Type(), ottoPath, "defaultValueHint") {
+		// the root: passes its hint on to DefaultValue
+		passes := false
+		for _, b := range callee.Blocks {
+			for _, ins := range b.Instrs {
+				if call, ok := ins.(*ssa.Call); ok {
+					if f := call.Call.StaticCallee(); f != nil && f.Name() == "DefaultValue" {
+						for _, a := range call.Call.Args {
+							if a == ssa.Value(callee.Params[1]) {
+								passes = true
+							}
+						}
+					}
+				}
+			}
+		}
+		if !passes || len(args) != 2 {
+			return ""
+		}
+		k, ok := args[1].(*ssa.Const)
+		if !ok || k.Value == nil {
+			return "?"
+		}
+		n, _ := constant.Int64Val(k.Value)
+		sc := callee.Pkg.Pkg.Scope()
+		for _, nm := range sc.Names() {
+			if cst, ok := sc.Lookup(nm).(*types.Const); ok && typeIs(cst.Type(), ottoPath, "defaultValueHint") {
+				if v, _ := constant.Int64Val(cst.Val()); v == n {
+					switch {
+					case strings.Contains(nm, "NoHint"):
+						return "none"
+					case strings.Contains(nm, "Number"):
+						return "number"
+					case strings.Contains(nm, "String"):
+						return "string"
+					}
+				}
+			}
+		}
+		return "?"
+	}
+	// a wrapper: one parameter, handed on as the first argument of the only call
+	if len(callee.Params) == 1 && typeIs(callee.Params[0].Type(), ottoPath, "Value") {
+		var only *ssa.Call
+		n := 0
+		for _, b := range callee.Blocks {
+			for _, ins := range b.Instrs {
+				if call, ok := ins.(*ssa.Call); ok {
+					n++
+					only = call
+				}
+			}
+		}
+		if n == 1 && len(only.Call.Args) >= 1 && only.Call.Args[0] == ssa.Value(callee.Params[0]) {
+			return primHintOf(only.Call.StaticCallee(), only.Call.Args, depth+1)
+		}
+	}
+	return ""
 }
